@@ -103,6 +103,41 @@ func conforms(v Value, t ast.Type) bool {
 	return true
 }
 
+/*@ func (self CastError) Message
+    serves C12
+    trusted
+    modifies nothing
+@*/
+
+// VIndexable / VInBounds / VShallowWF: for contracts of other packages.
+func VIndexable(b Value, i Value) bool { return b != nil && i != nil && indexable(b, i) }
+func VShallowWF(v Value) bool          { return shallowWF(v) }
+
+// VTypeKindOf: the kind of the static types a value of this kind belongs to.
+func VTypeKindOf(v Value) ast.TypeKind {
+	switch v.Kind() {
+	case IntValueKind:
+		return ast.IntTypeKind
+	case FloatValueKind:
+		return ast.FloatTypeKind
+	case BoolValueKind:
+		return ast.BoolTypeKind
+	case StringValueKind:
+		return ast.StringTypeKind
+	case RangeValueKind:
+		return ast.RangeTypeKind
+	case ListValueKind:
+		return ast.ListTypeKind
+	case AnyObjectValueKind:
+		return ast.AnyObjectTypeKind
+	case ObjectValueKind:
+		return ast.ObjectTypeKind
+	case OptionValueKind:
+		return ast.OptionTypeKind
+	}
+	return ast.UnknownTypeKind
+}
+
 // VConforms: conforms, for contracts of other packages.
 func VConforms(v Value, t ast.Type) bool { return conforms(v, t) }
 
@@ -297,6 +332,8 @@ func inBounds(i int64, n int) bool { return 0 <= wrapIndex(i, n) && wrapIndex(i,
 
 /*@ func IndexValue
     serves C02, C01, C04, C18
+    dyncalls-pure
+    modifies nothing
     requires base != nil && *base != nil && index != nil && *index != nil && span != nil
     requires indexable(*base, *index)
     ensures @list-element ret1 == nil && old((*base).Kind()) == ListValueKind ==> old(inBounds((*index).(ValueInt).Inner, len(*(*base).(ValueList).Values))) && ret0 == old((*(*base).(ValueList).Values)[wrapIndex((*index).(ValueInt).Inner, len(*(*base).(ValueList).Values))])
@@ -305,6 +342,7 @@ func inBounds(i int64, n int) bool { return 0 <= wrapIndex(i, n) && wrapIndex(i,
     ensures @string-element ret1 == nil && old((*base).Kind()) == StringValueKind ==> old(inBounds((*index).(ValueInt).Inner, len((*base).(ValueString).Inner)))
     ensures @string-element-value ret1 == nil && old((*base).Kind()) == StringValueKind ==> (*ret0).Kind() == StringValueKind && (*ret0).(ValueString).Inner == nfc(string(old((*base).(ValueString).Inner)[wrapIndex(old((*index).(ValueInt).Inner), len(old((*base).(ValueString).Inner)))]))
     ensures @result ret1 == nil ==> ret0 != nil
+    ensures @interrupt ret1 != nil ==> *ret1 != nil
 @*/
 
 // ---------------------------------------------------------------------------
@@ -320,6 +358,8 @@ func isIntArg(args []Value, k int) bool {
 
 // insertable: positions 0..len are valid for insert (len appends).
 func insertable(i int64, n int) bool { return 0 <= wrapIndex(i, n) && wrapIndex(i, n) <= int64(n) }
+
+
 
 
 
@@ -361,7 +401,7 @@ func insertable(i int64, n int) bool { return 0 <= wrapIndex(i, n) && wrapIndex(
 
 /*@ func (self ValueList) Fields
     serves C18, C02
-    ensures @has-every-offered-member ret1 == nil ==> haskey(ret0, "concat") && haskey(ret0, "contains") && haskey(ret0, "insert") && haskey(ret0, "join") && haskey(ret0, "last") && haskey(ret0, "len") && haskey(ret0, "pop") && haskey(ret0, "pop_front") && haskey(ret0, "push") && haskey(ret0, "push_front") && haskey(ret0, "remove") && haskey(ret0, "to_json") && haskey(ret0, "to_json_indent") && haskey(ret0, "to_string")
+    ensures @has-every-offered-member ret1 == nil ==> haskey(ret0, "concat") && haskey(ret0, "contains") && haskey(ret0, "insert") && haskey(ret0, "join") && haskey(ret0, "last") && haskey(ret0, "len") && haskey(ret0, "pop") && haskey(ret0, "pop_front") && haskey(ret0, "push") && haskey(ret0, "push_front") && haskey(ret0, "remove") && haskey(ret0, "sort") && haskey(ret0, "to_json") && haskey(ret0, "to_json_indent") && haskey(ret0, "to_string")
     ensures @no-interrupt ret1 == nil
 @*/
 
